@@ -36,8 +36,52 @@ var textCorpus = []hostile{
 	{"long", "0123456789abcdefghijklmnopqrstuvwxyzABCDEFGHIJKLMNOPQRSTUVWXYZ0123456789abcdefghijklmnopqrstuvwxyzABCDEFGHIJKLMNOPQRSTUVWXYZ"},
 }
 
-var textAlphabet = []string{`\`, `"`, `/`, `n`, `t`, `u`, `0`, `1`, `9`, `{`, `}`, `[`, `]`, `:`, `,`, ` `, "\n", "\t", "\r", "\x00", "\x1f", "\x7f", "a", "b", "é", "日", "😀", "\u2028", "&", "<", ">", "'", "%", "-", ".", "e", "E", "x", "f", "r", "v"}
+var textAlphabet = []string{"\u2066", "\u2069", "\u202e", "\u200d", "\u0085", "\ufeff", "\ufffd", "\U0010ffff", `\`, `"`, `/`, `n`, `t`, `u`, `0`, `1`, `9`, `{`, `}`, `[`, `]`, `:`, `,`, ` `, "\n", "\t", "\r", "\x00", "\x1f", "\x7f", "a", "b", "é", "日", "😀", "\u2028", "&", "<", ">", "'", "%", "-", ".", "e", "E", "x", "f", "r", "v"}
 var textTags = []vocab.LangRef{"en", "fr", "de-AT", "zh-Hant-TW", "x-private", "ro"}
+
+// every code point of the ranges where escapers special-case things: ASCII and C1 controls, Latin, general punctuation
+// (line/paragraph separators, bidi embeddings and isolates, zero-width characters), symbols, the edges of the BMP, some astral ones
+var sweepCodePoints = func() []rune {
+	var out []rune
+	add := func(lo, hi rune) {
+		for r := lo; r <= hi; r++ {
+			if r >= 0xD800 && r <= 0xDFFF {
+				continue
+			}
+			out = append(out, r)
+		}
+	}
+	add(0x00, 0x2FFF)
+	add(0xD7F0, 0xD7FF)
+	add(0xE000, 0xE00F)
+	add(0xFB00, 0xFB06)
+	add(0xFDD0, 0xFDEF)
+	add(0xFE00, 0xFE0F)
+	add(0xFEFF, 0xFEFF)
+	add(0xFFF0, 0xFFFF)
+	add(0x10000, 0x1000F)
+	add(0x1D100, 0x1D12F)
+	add(0x1F600, 0x1F64F)
+	add(0xE0000, 0xE007F)
+	add(0x10FFF0, 0x10FFFF)
+	return out
+}()
+
+func codePointClass(r rune) string {
+	switch {
+	case r < 0x20 || r == 0x7f:
+		return "control"
+	case r < 0x80:
+		return "ascii"
+	case r < 0xA0:
+		return "c1-control"
+	case r >= 0x2000 && r <= 0x206F:
+		return "general-punctuation"
+	case r > 0xFFFF:
+		return "astral"
+	}
+	return "bmp"
+}
 
 func randomText(r *rand.Rand) string {
 	n := 1 + r.Intn(64)
@@ -224,7 +268,7 @@ func init() {
 	per := nProp * nForm * nCodec
 	Register(&Prop{
 		ID: "C06",
-		Rule: "cases: every text class (HTML, quotes, backslashes, newlines, control characters, astral code points, escape look-alikes, JSON-looking text, 1- and 2-byte texts, JSON fragments) x the text-bearing properties (name, summary, content, preferredUsername, source content with and without a media type) x {single untagged, single tagged, entry of a 2-3 language map} x {JSON package pair, JSON method pair, gob package pair, gob method pair}, exhaustively; " +
+		Rule: "cases: every text class (HTML, quotes, backslashes, newlines, control characters, astral code points, escape look-alikes, JSON-looking text, 1- and 2-byte texts, JSON fragments) x the text-bearing properties (name, summary, content, preferredUsername, source content with and without a media type) x {single untagged, single tagged, entry of a 2-3 language map} x {JSON package pair, JSON method pair, gob package pair, gob method pair}, exhaustively; a sweep of ~13 000 individual code points (U+0000-U+2FFF and the edges of the planes) one per case; " +
 			"then seeded random valid-UTF-8 strings (length 1-64) over an alphabet biased to \\ \" / n t u digits braces brackets control bytes and multi-byte runes; oracle is bytes.Equal on the text and equality of the tags; distinct = (codec, property, form, text); non-trivial = the text is not plain ASCII letters",
 		Layers: func(tier string) []Layer {
 			return []Layer{
@@ -239,6 +283,18 @@ func init() {
 						c.Sample(map[string]any{"codec": codec, "property": prop, "form": form, "text": t.S})
 					}
 					checkText(c, prop, form, codec, t.Class, t.S)
+				}},
+				{Name: "codepoints", N: len(sweepCodePoints), Exhaustive: true, Run: func(c *Ctx, idx int) {
+					cp := sweepCodePoints[idx]
+					s := "x" + string(cp) + "y"
+					prop, form, codec := textProps[idx%nProp], textForms[(idx/nProp)%nForm], textCodecs[(idx/7)%nCodec]
+					c.R = rand.New(rand.NewSource(int64(idx)))
+					c.Distinct(fmt.Sprintf("cp|U+%04X", cp), true)
+					c.Count("codepoints", 1)
+					if idx%3001 == 0 {
+						c.Sample(map[string]any{"codec": codec, "property": prop, "form": form, "code_point": fmt.Sprintf("U+%04X", cp)})
+					}
+					checkText(c, prop, form, codec, codePointClass(cp), s)
 				}},
 				{Name: "random", N: tierN(tier, 50000, 1000000), Run: func(c *Ctx, idx int) {
 					s := randomText(c.R)
